@@ -449,6 +449,9 @@ func (d *drv) reloadOne(n, more, extra, trunc int, emit bool) {
 	defer st2.Close()
 	if trunc > extra {
 		c.Fail("reload:short-file-accepted", "NewFileHashStore accepted a file shorter than getStoredHashNum(n) hashes", in, "store", "error")
+		if emit {
+			c.Case(fmt.Sprintf("CReload %s %s %s %s (Some (HE, [], [], []))", hx.CoqNat(n), hx.CoqNat(more), r.hrefs(extras), hx.CoqNat(trunc)), in)
+		}
 		return
 	}
 	var t2 *merkle.CompactMerkleTree
